@@ -50,6 +50,14 @@ func (e EnumSchema[S, T]) ValidateCompatibility(typeOrData any) error {
 	if !validValuesMapField.IsValid() {
 		return fmt.Errorf("failed to get values map in enum %T", e)
 	}
+	var selfDefaultValue T
+	if validValuesMapField.Kind() != reflect.Map ||
+		validValuesMapField.Type().Key().Kind() != reflect.TypeOf(selfDefaultValue).Kind() {
+		// An integer converts to a string (as a code point), but an integer enum is not a string enum.
+		return &ConstraintError{
+			Message: fmt.Sprintf("enum %T does not have the same value type as enum %T", typeOrData, e),
+		}
+	}
 	for _, reflectKey := range validValuesMapField.MapKeys() {
 		var defaultValue T
 		defaultType := reflect.TypeOf(defaultValue)
